@@ -689,12 +689,9 @@ fn run_leaf_inner(
         if mon.c13 && rec.expected.is_rejected_or_noop() {
             stats.count("rejected_or_noop_calls_checked", 1);
             stats.nontrivial(&(rec.got.label(), leaf.seed_idx, hash_of(&crate::exec::model_obs(&run.model)), cum_bytes));
-            // A rejected call that merely flushes bytes buffered by EARLIER calls (possible under a
-            // non-flushing policy) changes nothing logically: file-level writes only count when
-            // every op flushes; frame-level events (new bytes handed to the WAL writer), creations,
-            // resizes and removals always count.
-            let per_op_flush = policy.per_op_persist().is_some();
-            let muts: Vec<String> = mutation_events(&rec.events).into_iter().filter(|m| per_op_flush || !m.starts_with("write(")).collect();
+            // (The statement says the WAL file contents are untouched: a rejected call that flushes
+            // bytes buffered by earlier calls is therefore reported too.)
+            let muts = mutation_events(&rec.events);
             if !muts.is_empty() {
                 return fail(
                     "rejected-call-wrote",
